@@ -146,7 +146,7 @@ def case_strategy(draw):
     if eof and not yld and draw(st.booleans()):
         # programs that really use `end` (statement, case clause, handler) followed by all kinds of actions
         from checks.c17 import eof_program
-        prog, _ = draw(eof_program(with_appendc=True))
+        prog, _ = draw(eof_program(with_appendc=True, tame_conditions=True))
         return prog, argv, tuple(sorted(on))
     prog = draw(gen.program(cfg))
     return prog, argv, tuple(sorted(on))
